@@ -24,6 +24,7 @@ import (
 
 var verifDir = "/verif"
 var repoDir = "/repo"
+var outDir = "" // where evidence/ and replays/ are written (default verifDir)
 
 func goEnv() []string {
 	env := os.Environ()
@@ -71,8 +72,33 @@ func runCmd(dir string, env []string, name string, args ...string) (string, erro
 
 // buildWorker builds cmd/worker against /repo (mode A).
 func buildWorker(extraArgs ...string) string {
-	out := filepath.Join(scratch, "worker")
-	args := []string{"build", "-tags", "verif", "-overlay", writeOverlay()}
+	return buildWorkerOv("worker", writeOverlay(), extraArgs...)
+}
+
+// buildWorkerV builds the worker against /repo with the package's import of
+// crypto/rand redirected to the scripted stand-in verifshim/vrand.
+func buildWorkerV() (string, int) {
+	re := redirectImports("crypto/rand", "verifshim/vrand", "rand")
+	return buildWorkerOv("worker_v", writeOverlay(re)), len(re)
+}
+
+func buildWorkerOv(name, overlay string, extraArgs ...string) string {
+	out := filepath.Join(scratch, name)
+	args := []string{"build", "-tags", "verif", "-overlay", overlay}
+	if repoDir != "/repo" {
+		// alternative tree (used to try seeded changes without touching /repo): same module
+		// file with the replace directive pointed at it
+		mod, err := os.ReadFile(filepath.Join(verifDir, "go.mod"))
+		if err != nil {
+			die("%v", err)
+		}
+		m2 := strings.Replace(string(mod), "=> /repo", "=> "+repoDir, 1)
+		m2 = strings.Replace(m2, "=> ./shim", "=> "+filepath.Join(verifDir, "shim"), 1)
+		sum, _ := os.ReadFile(filepath.Join(verifDir, "go.sum"))
+		os.WriteFile(filepath.Join(scratch, "go.mod"), []byte(m2), 0644)
+		os.WriteFile(filepath.Join(scratch, "go.sum"), sum, 0644)
+		args = append(args, "-modfile="+filepath.Join(scratch, "go.mod"))
+	}
 	args = append(args, extraArgs...)
 	args = append(args, "-o", out, "./cmd/worker")
 	if o, err := runCmd(verifDir, goEnv(), "go", args...); err != nil {
@@ -154,10 +180,10 @@ func finish(prop, tier string, r *Result, t0 time.Time) int {
 			fmt.Printf("KNOWN-FINDING: property=%s %s [%s]\n", prop, k.What, k.Key)
 		}
 	}
-	os.MkdirAll(filepath.Join(verifDir, "replays"), 0755)
+	os.MkdirAll(filepath.Join(outDir, "replays"), 0755)
 	for _, v := range r.Violations {
 		h := sha256.Sum256([]byte(v.Key))
-		path := filepath.Join(verifDir, "replays", fmt.Sprintf("%s-%s.json", prop, hex.EncodeToString(h[:6])))
+		path := filepath.Join(outDir, "replays", fmt.Sprintf("%s-%s.json", prop, hex.EncodeToString(h[:6])))
 		rep := map[string]interface{}{"property": prop, "key": v.Key, "what": v.What, "case": v.Case, "tier": tier}
 		data, _ := json.MarshalIndent(rep, "", " ")
 		if err := os.WriteFile(path, data, 0644); err != nil {
@@ -212,8 +238,8 @@ func finish(prop, tier string, r *Result, t0 time.Time) int {
 		"violations":  r.ViolationCount,
 	}
 	data, _ := json.MarshalIndent(ev, "", " ")
-	os.MkdirAll(filepath.Join(verifDir, "evidence"), 0755)
-	if err := os.WriteFile(filepath.Join(verifDir, "evidence", prop+".json"), append(data, '\n'), 0644); err != nil {
+	os.MkdirAll(filepath.Join(outDir, "evidence"), 0755)
+	if err := os.WriteFile(filepath.Join(outDir, "evidence", prop+".json"), append(data, '\n'), 0644); err != nil {
 		die("writing evidence: %v", err)
 	}
 	fmt.Printf("%s tier=%s evaluations=%d distinct=%d exhaustive=%v violations=%d known_hits=%d wall=%.1fs\n",
@@ -233,7 +259,7 @@ func runWorkerCheck(prop, tier string) int {
 	cmd := exec.Command(w, "-prop", prop, "-tier", tier, "-verif", verifDir, "-out", resFile, "-seed", strconv.FormatInt(seed(), 10))
 	cmd.Stdout = os.Stderr
 	cmd.Stderr = os.Stderr
-	cmd.Env = append(os.Environ(), "VERIF_SCRATCH_DIR="+scratch)
+	cmd.Env = append(os.Environ(), "VERIF_SCRATCH_DIR="+scratch, "VERIF_REPO="+repoDir)
 	if err := cmd.Run(); err != nil {
 		die("worker failed: %v", err)
 	}
@@ -256,6 +282,10 @@ func main() {
 	}
 	if v := os.Getenv("VERIF_REPO"); v != "" {
 		repoDir = v
+	}
+	outDir = verifDir
+	if v := os.Getenv("VERIF_OUT"); v != "" {
+		outDir = v
 	}
 	if len(os.Args) < 3 && !(len(os.Args) == 2 && os.Args[1] == "warm") {
 		fmt.Fprintln(os.Stderr, "usage: vcheck run <Cxx> [--tier quick|thorough] | vcheck replay <file>")
